@@ -362,6 +362,12 @@ class CTree:
             return ('mvar', '?')
         if h in ('int', 'str', 'item', 'fnref', 'float', 'const', 'arg', 'bytes'):
             return t
+        if h == 'field' and len(t) == 3 and isinstance(t[1], tuple) and t[1] and t[1][0] == 'var' and isinstance(t[1][2], int):
+            # a field read out of a struct that was built in this function: do not drag the whole constructor (every
+            # other field's computation) into the tree; the struct is an opaque typed base here
+            sd = fn.single_def(t[1][2])
+            if sd is not None and sd['kind'] == 'assign' and sd['rv']['k'] == 'agg' and sd['rv'].get('ak') == 'adt':
+                return ('field', ('mvar', self.leaf_ty(t[1][2])), t[2])
         if h == 'call' or h == 'closure':
             return tuple([h, _clean(str(t[1]))] + [self.tree(x, depth) if isinstance(x, tuple) else x for x in t[2:]])
         kids = [self.tree(x, depth) if isinstance(x, tuple) else x for x in t[1:]]
@@ -401,6 +407,11 @@ def _multi_defs(fn, ct, items, prefix=''):
                 if d['kind'] == 'assign':
                     if is_log_term(d['st']) or ty == '()':
                         continue
+                    if d['rv']['k'] == 'agg' and d['rv'].get('ak') == 'adt' and len(d['rv'].get('xs', [])) > 3:
+                        # a struct built field by field: which struct, not how every field is computed (a reader of one
+                        # field does not depend on the others; field-level provenance is the business of backing rules)
+                        items.add('%sdef <%s> = (adt %s ..)' % (prefix, ty, _clean(d['rv'].get('adt', '?'))))
+                        continue
                     items.add('%sdef <%s> = %s' % (prefix, ty, ct.text(fn.rvalue_tree(d['rv']))))
                 elif d['kind'] == 'call':
                     if is_log_term(d['term']):
@@ -439,10 +450,67 @@ def _switch_domain(fn, t):
     return None
 
 
-def canon_guards(fn, bb, ct, items, prefix='', within=None):
+def _atoms(fn, tree, out=None):
+    """the roots a value is computed from: arguments and locals with several definitions (after inlining every
+    single-definition local)"""
+    if out is None:
+        out = set()
+    def walk(t, depth=0):
+        if not isinstance(t, tuple) or not t:
+            return
+        if t[0] == 'var':
+            l = t[2]
+            if not isinstance(l, int):
+                return
+            if 0 < l <= fn.argc:
+                out.add(('arg', l))
+                return
+            e = fn.expand(t) if depth < 40 else t
+            if e != t:
+                walk(e, depth + 1)
+            else:
+                out.add(('L', l))
+            return
+        for x in t[1:]:
+            if isinstance(x, tuple):
+                walk(x, depth)
+    walk(tree)
+    return out
+
+
+def _atom_closure(fn, atoms):
+    """add the roots of every definition of the multi-definition locals in `atoms` (transitively)"""
+    writers = _alias_writers(fn)
+    done = set()
+    atoms = set(atoms)
+    while True:
+        todo = [a for a in atoms if a[0] == 'L' and a not in done]
+        if not todo:
+            return atoms
+        for a in todo:
+            done.add(a)
+            l = a[1]
+            for d in fn.defs.get(l, []):
+                if d['kind'] == 'assign':
+                    _atoms(fn, fn.rvalue_tree(d['rv']), atoms)
+                elif d['kind'] == 'call':
+                    _atoms(fn, fn.call_tree(d['term']), atoms)
+                elif d['kind'] == 'part':
+                    st = d.get('st')
+                    if st is not None and st['k'] == 'assign':
+                        _atoms(fn, fn.rvalue_tree(st['rv']), atoms)
+                    elif d.get('term') is not None:
+                        _atoms(fn, fn.call_tree(d['term']), atoms)
+            for t in writers.get(l, []):
+                _atoms(fn, fn.call_tree(t), atoms)
+            atoms.discard(None)
+
+
+def canon_guards(fn, bb, ct, items, prefix='', within=None, relevant=None):
     """the branch decisions under which block bb executes, as `cond in {values}`: the values are concrete whenever the
     switched operand's domain is known, so `if let Some(x) = o {A} else {B}` and `match o { Some(x) => A, None => B }`
     give the same guards"""
+    cand = []
     for d in fn.dom_chain(bb):
         if d == bb or (within is not None and d not in within):
             continue
@@ -468,7 +536,30 @@ def canon_guards(fn, bb, ct, items, prefix='', within=None):
             lab = '{' + ','.join(str(v) for v in sorted(vals)) + '}'
         else:
             lab = ','.join(sorted(str(v) for v in reach_vals)) + (',else' if else_reaches else '')
-        items.add('%sguard %s in %s' % (prefix, ct.text(fn.operand_tree(t['x']))[:700], lab))
+        cand.append((fn.operand_tree(t['x']), lab, d))
+    if relevant is None:
+        cand = [(c, lab) for c, lab, d in cand]
+    else:
+        # keep the decisions that share a root (argument, re-assigned local) with the site's operands, transitively: a
+        # branch on unrelated data neither computes nor bounds them, and re-spelling it must not make the entry stale
+        # decisions inside a loop around the site always stay: they bound how often the site runs (counters, cursors)
+        rel = _atom_closure(fn, relevant)
+        if getattr(fn, '_loops_cache', None) is None:
+            fn._loops_cache = fn.loops()
+        around = [body for body in fn._loops_cache.values() if bb in body]
+        pend = [(c, lab, set() if any(d in body for body in around) else _atom_closure(fn, _atoms(fn, c))) for c, lab, d in cand]
+        cand = []
+        changed = True
+        while changed:
+            changed = False
+            for x in list(pend):
+                if not x[2] or x[2] & rel:
+                    rel |= x[2]
+                    cand.append((x[0], x[1]))
+                    pend.remove(x)
+                    changed = True
+    for c, lab in cand:
+        items.add('%sguard %s in %s' % (prefix, ct.text(c)[:700], lab))
 
 
 def effect_summary(fn):
@@ -520,7 +611,11 @@ def canon_site_items(fn, crate, site_trees, kind, bb):
     items = set()
     ct = CTree(fn)
     items.add('site %s %s' % (kind, ' ; '.join(ct.text(t) for t in site_trees)))
-    canon_guards(fn, bb, ct, items)
+    rel = set()
+    for t in site_trees:
+        _atoms(fn, t, rel)
+    # a site without operands (panic!(), unreachable!(), an assert on a constant) rests on its guards alone: keep all
+    canon_guards(fn, bb, ct, items, relevant=rel or None)
     _multi_defs(fn, ct, items)
     canon_closure_context(fn, crate, items)
     return items
